@@ -353,6 +353,7 @@ func (ipcp *IPCPStateMachine) receiveConfigureRequest(pkt *LCPPacket) error {
 		}
 	case IPCPStateAckRcvd:
 		if respCode == LCPCodeConfigAck {
+			ipcp.stopTimer()
 			ipcp.setState(IPCPStateOpened)
 		}
 	case IPCPStateAckSent:
@@ -478,8 +479,8 @@ func (ipcp *IPCPStateMachine) receiveConfigureAck(pkt *LCPPacket) error {
 		return nil
 	}
 
-	ipcp.stopTimer()
-
+	// The restart timer keeps running while the automaton waits for the peer (RFC 1661 4.4);
+	// it is stopped only on entering a state without a timer
 	switch ipcp.state {
 	case IPCPStateClosed, IPCPStateStopped:
 		ipcp.sendTerminateAck(pkt.Identifier)
@@ -491,6 +492,7 @@ func (ipcp *IPCPStateMachine) receiveConfigureAck(pkt *LCPPacket) error {
 		ipcp.setState(IPCPStateReqSent)
 	case IPCPStateAckSent:
 		ipcp.initializeRestartCount()
+		ipcp.stopTimer()
 		ipcp.setState(IPCPStateOpened)
 	case IPCPStateOpened:
 		ipcp.sendConfigureRequest()
@@ -505,8 +507,6 @@ func (ipcp *IPCPStateMachine) receiveConfigureNak(pkt *LCPPacket) error {
 	if pkt.Identifier != ipcp.lastIdentifier {
 		return nil
 	}
-
-	ipcp.stopTimer()
 
 	// Process NAK options
 	opts, err := ParseLCPOptions(pkt.Data)
@@ -547,8 +547,6 @@ func (ipcp *IPCPStateMachine) receiveConfigureReject(pkt *LCPPacket) error {
 		return nil
 	}
 
-	ipcp.stopTimer()
-
 	// Process rejected options - stop sending them
 	opts, _ := ParseLCPOptions(pkt.Data)
 	for _, opt := range opts {
@@ -576,16 +574,17 @@ func (ipcp *IPCPStateMachine) receiveConfigureReject(pkt *LCPPacket) error {
 
 // receiveTerminateRequest handles incoming Terminate-Request
 func (ipcp *IPCPStateMachine) receiveTerminateRequest(pkt *LCPPacket) error {
-	ipcp.stopTimer()
-
 	switch ipcp.state {
 	case IPCPStateClosed, IPCPStateStopped, IPCPStateClosing, IPCPStateStopping:
 		ipcp.sendTerminateAck(pkt.Identifier)
 	case IPCPStateReqSent, IPCPStateAckRcvd, IPCPStateAckSent:
+		ipcp.stopTimer()
 		ipcp.sendTerminateAck(pkt.Identifier)
 		ipcp.setState(IPCPStateStopped)
 	case IPCPStateOpened:
+		// Zero-Restart-Count: wait one restart period, then timeout finishes in Stopped
 		ipcp.zeroRestartCount()
+		ipcp.startTimer()
 		ipcp.sendTerminateAck(pkt.Identifier)
 		ipcp.setState(IPCPStateStopping)
 	}
@@ -595,12 +594,12 @@ func (ipcp *IPCPStateMachine) receiveTerminateRequest(pkt *LCPPacket) error {
 
 // receiveTerminateAck handles incoming Terminate-Ack
 func (ipcp *IPCPStateMachine) receiveTerminateAck(pkt *LCPPacket) error {
-	ipcp.stopTimer()
-
 	switch ipcp.state {
 	case IPCPStateClosing:
+		ipcp.stopTimer()
 		ipcp.setState(IPCPStateClosed)
 	case IPCPStateStopping:
+		ipcp.stopTimer()
 		ipcp.setState(IPCPStateStopped)
 	case IPCPStateAckRcvd:
 		ipcp.setState(IPCPStateReqSent)
